@@ -251,7 +251,34 @@ func checkC12(c *Ctx, r *Result, tier string) {
 			}
 		}
 	}
-	if unlockOp == nil || clearOwner == nil || clearOwner.fn != unlockOp.Instr.Parent() || !dominates(clearOwner.in, unlockOp.Instr) {
+	// two deferred calls: `defer mutex.Unlock()` registered first and the closure that clears the
+	// owner registered after it — deferred calls run in reverse order, so the clearing runs first
+	lifoOK := false
+	if unlockOp != nil && clearOwner != nil && unlockOp.Instr.Parent() == blockFn && clearOwner.fn != blockFn {
+		if ud, isDefer := unlockOp.Instr.(*ssa.Defer); isDefer && !inLoop(ud.Block()) {
+			allInstrs(blockFn, func(in ssa.Instruction) {
+				d, ok := in.(*ssa.Defer)
+				if !ok || d == ud {
+					return
+				}
+				if mc, isMC := d.Call.Value.(*ssa.MakeClosure); isMC && mc.Fn == ssa.Value(clearOwner.fn) && dominates(ud, d) && !inLoop(d.Block()) {
+					// the clearing happens on every path through the closure
+					all := true
+					allInstrs(clearOwner.fn, func(x ssa.Instruction) {
+						if _, isRet := x.(*ssa.Return); isRet && x.Block() != clearOwner.fn.Recover && !dominates(clearOwner.in, x) {
+							all = false
+						}
+					})
+					if all {
+						lifoOK = true
+					}
+				}
+			})
+		}
+	}
+	if lifoOK {
+		r.Instance("R12b-order", key+"#clear-owner", c.Pos(c.InstrPos(clearOwner.in)), "ok", "owner cleared by a deferred closure registered after the deferred Unlock: it runs before it", true)
+	} else if unlockOp == nil || clearOwner == nil || clearOwner.fn != unlockOp.Instr.Parent() || !dominates(clearOwner.in, unlockOp.Instr) {
 		r.Instance("R12b-order", key+"#clear-owner", c.Pos(blockFn.Pos()), "finding", "owner not cleared before Unlock", true)
 		r.Report(Finding{Rule: "R12b-order", Site: key + "#clear-owner", Pos: c.Pos(blockFn.Pos()),
 			Msg: key + ": the owner entry is not cleared before (dominating) the Unlock of the named mutex: a later entrant could see itself or a stale owner and bypass the lock"})
@@ -543,43 +570,48 @@ func c12Bypass(c *Ctx, r *Result, fn *ssa.Function, lock LockOp, fOwners *types.
 	lockBlock := lock.Instr.Block()
 	type res struct{ locks, known bool }
 	results := map[[2]bool]res{}
+	// walk the branches under an assignment; a condition that is not about (present, owner) — the
+	// lookup-or-create of the mutex itself, say — is independent of it: both ways must agree
+	var walk func(b *ssa.BasicBlock, present, same bool, steps int) res
+	walk = func(b *ssa.BasicBlock, present, same bool, steps int) res {
+		for ; steps < 60; steps++ {
+			if b == lockBlock {
+				return res{locks: true, known: true}
+			}
+			last := b.Instrs[len(b.Instrs)-1]
+			switch t := last.(type) {
+			case *ssa.If:
+				v, k := eval(t.Cond, present, same)
+				if !k {
+					if !blockReach(b, true)[lockBlock] {
+						return res{known: true}
+					}
+					r0 := walk(b.Succs[0], present, same, steps+1)
+					r1 := walk(b.Succs[1], present, same, steps+1)
+					if r0.known && r1.known && r0.locks == r1.locks {
+						return r0
+					}
+					return res{known: false}
+				}
+				if v {
+					b = b.Succs[0]
+				} else {
+					b = b.Succs[1]
+				}
+			case *ssa.Jump:
+				b = b.Succs[0]
+				if !blockReach(b, true)[lockBlock] && b != lockBlock {
+					return res{known: true}
+				}
+			default:
+				return res{known: true}
+			}
+		}
+		return res{known: false}
+	}
 	for _, present := range []bool{false, true} {
 		for _, same := range []bool{false, true} {
-			b := start
-			out := res{known: true}
-			for steps := 0; steps < 50; steps++ {
-				if b == lockBlock {
-					out.locks = true
-					break
-				}
-				last := b.Instrs[len(b.Instrs)-1]
-				switch t := last.(type) {
-				case *ssa.If:
-					v, k := eval(t.Cond, present, same)
-					if !k {
-						// a condition that is not about (present, owner): unknown unless the lock block is unreachable from here
-						if !blockReach(b, true)[lockBlock] {
-							goto done
-						}
-						out.known = false
-						goto done
-					}
-					if v {
-						b = b.Succs[0]
-					} else {
-						b = b.Succs[1]
-					}
-				case *ssa.Jump:
-					b = b.Succs[0]
-					if !blockReach(b, true)[lockBlock] {
-						goto done
-					}
-				default:
-					goto done
-				}
-			}
-		done:
-			results[[2]bool{present, same}] = out
+			results[[2]bool{present, same}] = walk(start, present, same, 0)
 		}
 	}
 	bad := []string{}
